@@ -104,6 +104,28 @@ theorem transpose_correct_cfg (cfg : Cfg) (sz nR nC : Nat) (hR : 0 < nR) (hC : 0
     obtain ⟨h1, _, h3, h4⟩ := transpose_correct a m g1 g2 M N (cfg.native.lanes sz) nR nC (lanes_pos _ _) hR hC
     exact ⟨h1, h3, h4⟩
 
+/-- `TensorMap dst = trans(A)` as the code is now (materialise in a temporary, then copy linearly): the map ends up
+    holding the transposed matrix, every cell of it is written, nothing beyond it -/
+theorem map_assign_trans_correct (cfg : Cfg) (sz nR nC : Nat) (hR : 0 < nR) (hC : 0 < nC)
+    (a m t0 : Nat → α) (g1 g2 : Nat → Nat → Nat → α) (M N : Nat) :
+    (∀ i j, i < M → j < N → applyWrites (mapAssignWrites cfg sz nR nC a g1 g2 t0 M N) m (j * M + i) = a (i * N + j)) ∧
+    (∀ p, N * M ≤ p → applyWrites (mapAssignWrites cfg sz nR nC a g1 g2 t0 M N) m p = m p) := by
+  have hcopy : WritesExactly (mapAssignWrites cfg sz nR nC a g1 g2 t0 M N) (fun p => p < N * M)
+      (applyWrites (transposeWrites cfg sz nR nC a g1 g2 M N) t0) := by
+    apply writesExactly_of_all_right
+    · intro w hw
+      simp only [mapAssignWrites, List.mem_map, List.mem_range] at hw
+      obtain ⟨p, hp, rfl⟩ := hw
+      exact ⟨hp, rfl⟩
+    · intro p hp
+      exact ⟨(p, _), by simp only [mapAssignWrites, List.mem_map, List.mem_range]; exact ⟨p, hp, rfl⟩, rfl⟩
+  obtain ⟨h1, _, _⟩ := transpose_correct_cfg cfg sz nR nC hR hC a t0 g1 g2 M N
+  refine ⟨?_, ?_⟩
+  · intro i j hi hj
+    rw [(applyWrites_of_exact hcopy m (j * M + i)).1 (digits_lt hj hi), h1 i j hi hj]
+  · intro p hp
+    exact (applyWrites_of_exact hcopy m p).2 (by omega)
+
 /-- non-vacuity: the default AVX2 float build on a 9×11 matrix runs 1 full block column and both edge loops -/
 example : (blockedWrites (fun k => k) (fun _ _ _ => 0) (fun _ _ _ => 0) 9 11 8 1 1).length = 99 := by decide
 
